@@ -99,19 +99,27 @@ def run(ctx):
     validate(ctx, traces, "runs")
     from harness.drivers import _calib
     _calib.check_seeded(ctx)
+    # several threads: forced schedules through the real context manager (PyxelSeedThreads)
+    from harness import seedthreads
+    seedthreads.check_threads(ctx)
     ctx.assumptions += ["generator states are compared through a digest of the full legacy state (key, position, pending "
                         "Gaussian)", "model functions without a fixture are listed in the evidence as uncovered"]
 
 
 def replay(ctx, payload):
     case = payload["case"]
+    if case["kind"] == "threads":
+        from harness import seedthreads
+        return seedthreads.replay_threads(ctx, payload)
     if case["kind"] == "census":
         tr = seed.census_job(case["job"])
     elif case["kind"] == "run":
         tr = seed.run_job(case["job"])
     else:
         from harness.drivers import _calib
-        return _calib.replay(ctx, payload)
+        job = {k: v for k, v in case["job"].items() if k != "mode"}
+        _calib.seeded_case(ctx, job)
+        return ctx.finish()
     print(json.dumps(tr["events"], indent=0)[:3000])
     validate(ctx, [tr], "replay")
     return ctx.finish()
